@@ -5,6 +5,7 @@ import GoImap.Lemmas.ClientConcKeep
 import GoImap.Lemmas.ClientConcSend
 import GoImap.Lemmas.ClientConcPend
 import GoImap.Lemmas.ClientConcClose
+import GoImap.Lemmas.ClientConcCont
 /-!
   C13 — the client is safe for concurrent use. Property theorems about `GoImap.ClientConc`
   (Model/ClientConc.lean: one step per c.mutex / c.encMutex critical section or channel operation,
@@ -271,6 +272,36 @@ theorem completion_never_blocks (v : Variant) (hv : v.initFirst = true) (sc : Sc
     exact (honce.tok c t ht).1
 
 example : fixed.initFirst = true := rfl
+
+
+/-- contreq_fifo (repaired model: continuation requests are registered by the goroutine that owns
+    the encoder). `regLog` is the sequence of commands for which a continuation request was
+    registered. (1) The literal headers / IDLE lines appear on the wire in registration order;
+    (2) the requests granted so far by the reader, followed by those still queued, are in
+    registration order as well: a "+" always goes to the earliest registered request that is still
+    outstanding, and that is the request whose header is the earliest one on the wire not yet
+    continued. -/
+theorem contreq_fifo (v : Variant) (hv : v.idleUnderEnc = true) (sc : Scenario) (sched : List Nat) :
+    let s := run v (init v sc) sched
+    (wireHeads s.wire).Sublist s.regLog ∧
+    (s.contResumed ++ s.contReqs.map Prod.snd).Sublist s.regLog := by
+  intro s
+  have h := contInv_run v hv sched (init v sc) (contInv_init v sc)
+  exact ⟨h.heads_sub, h.fifo⟩
+
+example : fixed.idleUnderEnc = true := rfl
+
+def scOrder : Scenario :=
+  { subs := [[.login], [.idle]], closes := 0, observer := [], server := [.cont, .reply .no true] }
+
+/-- F26 again, as the failure of contreq_fifo (1): IDLE (command 1) registers its request first but
+    LOGIN (command 0), which owns the encoder, sends its header first; the queue order [1, 0] is
+    the reverse of the wire order [0, 1], and the "+" meant for LOGIN is granted to IDLE -/
+theorem contreq_fifo_legacy_counterexample :
+    let s := run Legacy.f26idle (init Legacy.f26idle scOrder)
+      [5, 4, 4, 4, 4, 4, 1, 0, 0, 0, 0, 0, 1, 0, 0, 0, 0, 0, 0, 0, 0, 4, 4, 5, 5, 5, 5]
+    (s.regLog, wireHeads s.wire, s.contAddressed, s.contResumed) = ([1, 0], [0, 1], [0], [1]) := by
+  decide
 
 /-! ### the lockset discipline of the model's field-access table -/
 
